@@ -46,4 +46,11 @@ edit ttl-min-form   internal/dnsutils/msg_ttl.go $'\t\t\tif ttl := hdr.TTL; ttl 
 edit tc-test-form   internal/upstream/upstream.go 'if r.Header.Truncated {' 'if tc := r.Header.Truncated; tc {'
 edit retry-const    $T/quic_transport.go 'retry < 5 &&' 'retry <= 4 &&'
 edit defer-unlock   $T/pipeline_conn.go $'\tc.m.Lock()\n\tdelete(c.queue, uint32(qid))\n\teol := c.nextQid > 65535 && len(c.queue) == 0\n\tc.m.Unlock()' $'\tc.m.Lock()\n\tdelete(c.queue, uint32(qid))\n\tn := len(c.queue)\n\teol := c.nextQid > 65535 && n == 0\n\tc.m.Unlock()'
+edit udp-slice-var   internal/dnsutils/net_io.go $'\tm, err := dnsmsg.UnpackMsg(b[:n])' $'\tdata := b[0:n]\n\tm, err := dnsmsg.UnpackMsg(data)'
+edit search-flip     internal/netlist/netlist.go 'return ip.cmp(l.e[i].start) < 0' 'return l.e[i].start.cmp(ip) > 0'
+edit hdr-guard-form  $D/msg.go 'if len(hdr) < 12 {' 'if len(msg)-off < 12 {'
+edit avail-flip      $T/pipeline_conn.go 's.Available = c.nextQid+c.reserved <= 65535' 's.Available = 65535 >= c.nextQid+c.reserved'
+edit close-helper    $R/server_quic.go $'\t\ts.l.Close()\n\t\ts.qt.Close()\n\t\ts.uc.Close()' $'\t\tcloseAll(s.l, s.qt, s.uc)' $'\nfunc closeAll(cs ...interface{ Close() error }) {\n\tfor _, c := range cs {\n\t\tc.Close()\n\t}\n}\n'
+edit wiring-local    $R/limiter.go $'\t\t\tV6Mask: cfg.Client.V6Mask,' $'\t\t\tV6Mask: cfg.Client.V6Mask + 0,'
+edit tcp-readfull    internal/dnsutils/net_io.go $'\tnr, err := io.ReadFull(c, hdrBuf)\n\tn += nr' $'\tnr, err := io.ReadAtLeast(c, hdrBuf, len(hdrBuf))\n\tn += nr'
 rm -rf $out
